@@ -173,20 +173,28 @@ Definition spec_dec_layout4 (osz lsz : nat) (pad_ok : bool) (bs : bytes) : outco
 
 (* ------------------------------------------------------------------ shared message (IV.A.2.p; the body that replaces a message when
    its flag bit 1 is set, and the datatype / dataspace field of an attribute whose flag bit 0 / 1 is set)
-   version 1: version | type (0) | reserved (6) | address (O)
-   version 2: version | type (0) | address (O)
+   version 1: version | type (0) | reserved (6) | [name offset (L)] | address (O)
+   version 2: version | type (0; the reference library 1.8 writes 2, committed, as in version 3) | address (O)
    version 3: version | type (0 not shared / not in a heap, 1 in the shared message heap: 8-byte heap ID,
                               2 committed message: address (O), 3 not shared) | location
    -> the address of the object header that holds the message (types 0 and 2); a message in the shared message heap is not followed *)
-Definition spec_dec_shared (osz : nat) (pad_ok : bool) (bs : bytes) : outcome N :=
+(* the rest of a shared message: nothing, or (version 1 object headers) zero bytes - the reference library leaves a message slot that
+   was sized for a datatype description zero-filled when the description is replaced by the reference to a committed datatype *)
+Definition p_zpad (pad_ok : bool) (r : bytes) : outcome unit :=
+  match r with [] => Ok tt | _ => guard (pad_ok && all_zero r) end.
+Definition spec_dec_shared (osz lsz : nat) (pad_ok : bool) (bs : bytes) : outcome N :=
   '(ver, r) <- p_byte bs;;
   '(ty, r) <- p_byte r;;
   if ver =? 1 then
-    _ <- guard (ty =? 0);; '(_, r) <- p_zeros 6 r;; '(a, r) <- p_u osz r;; _ <- p_end pad_ok r;; Ok a
+    (* as written by the reference library up to 1.6 the location is a symbol table entry remnant: the offset of a name in a local
+       heap (L, not interpreted; the specification text omits it) precedes the address *)
+    _ <- guard (ty =? 0);; '(_, r) <- p_zeros 6 r;;
+    if (length r <? lsz + osz)%nat then '(a, r) <- p_u osz r;; _ <- p_zpad pad_ok r;; Ok a
+    else '(_, r) <- p_take lsz r;; '(a, r) <- p_u osz r;; _ <- p_zpad pad_ok r;; Ok a
   else if ver =? 2 then
-    _ <- guard (ty =? 0);; '(a, r) <- p_u osz r;; _ <- p_end pad_ok r;; Ok a
+    _ <- guard ((ty =? 0) || (ty =? 2));; '(a, r) <- p_u osz r;; _ <- p_zpad pad_ok r;; Ok a
   else if ver =? 3 then
-    _ <- guard (ty =? 2);; '(a, r) <- p_u osz r;; _ <- p_end pad_ok r;; Ok a
+    _ <- guard (ty =? 2);; '(a, r) <- p_u osz r;; _ <- p_zpad pad_ok r;; Ok a
   else Err.
 
 (* ------------------------------------------------------------------ 0x000C attribute whose datatype is shared (flag bit 0 of versions 2
@@ -210,3 +218,15 @@ Definition spec_dec_attribute_sh (tol : tolerance) (lsz : nat) (pad_ok : bool) (
   '(data, r) <- p_take (N.to_nat (nelem sp * dtype_size t)) r;;
   _ <- p_end pad_ok r;;
   Ok ({| as_version := ver; as_cset := cset; as_name := name; as_dtype := t; as_space := sp; as_data := data |}, tg).
+
+(* the committed datatype an attribute with a shared datatype refers to (the reference library counts every such use in the committed
+   datatype's object reference count) *)
+Definition attr_shared_addr (osz lsz : nat) (bs : bytes) : outcome N :=
+  '(ver, r) <- p_byte bs;;
+  '(fl, r) <- p_byte r;;
+  _ <- guard ((2 <=? ver) && (ver <=? 3) && (fl =? 1));;
+  '(ns, r) <- p_u 2 r;; '(ts, r) <- p_u 2 r;; '(ss, r) <- p_u 2 r;;
+  '(_, r) <- (if ver =? 3 then p_take 1 r else Ok ([], r));;
+  '(_, r) <- p_take (N.to_nat ns) r;;
+  '(tb, r) <- p_take (N.to_nat ts) r;;
+  spec_dec_shared osz lsz false tb.
